@@ -260,6 +260,16 @@ def local_write(ctx) -> None:
                 ctx.rep.check(not conds, rule, c + "/every-item", "every item of the mixed composition is written back",
                               f"the write-back of an item is skipped {'unless' if conds and conds[0][1] else 'when'} `{show(conds[0][0])[:50] if conds else ''}`: the well keeps the stale fraction of a "
                               "component that the mixture no longer contains (fractions then sum to more than 1)", where=w)
+            # the fractions are written for an addition that was accepted: no refusal (raise) of the same well's addition can
+            # still be reached after the write-back - a dispense rejected with VolumeOverflowError would leave the volume
+            # unchanged and the composition mixed as if the liquid had arrived
+            if loops_:
+                outer = loops_[0]
+                after = fv.cfg.reachable_from(node.id, blocked={outer})
+                late = [fv.cfg.nodes[x] for x in after if x in fv.cfg.loop_body[outer] and fv.cfg.nodes[x].kind == "stmt" and isinstance(fv.cfg.nodes[x].ast, ast.Raise)]
+                ctx.rep.check(not late, rule, c + "/after-limit-check", "the fractions are written only after the addition to this well was accepted",
+                              f"`{stmt_key(late[0].ast)[:60] if late else ''}` can still refuse the addition after the mixed fractions were written: a rejected addition leaves the "
+                              "well's volume unchanged but its composition altered", where=w)
             # value and key come from the same items() iteration over the combined composition
             kterm = fv.res.resolve(t.value.slice, node.id)
             vterm = fv.res.resolve(node.ast.value, node.id)
